@@ -373,3 +373,26 @@ func instrDominates(a, b ssa.Instruction) bool {
 	}
 	return a.Block().Dominates(b.Block())
 }
+
+// retVal returns result i of a return instruction, looking through the result
+// slots go/ssa introduces in functions with defers (store; rundefers; load; return).
+func retVal(ret *ssa.Return, i int) ssa.Value {
+	v := ret.Results[i]
+	la := loadAddr(v)
+	if la == nil {
+		return v
+	}
+	al, ok := la.(*ssa.Alloc)
+	if !ok {
+		return v
+	}
+	instrs := ret.Block().Instrs
+	for j := len(instrs) - 1; j >= 0; j-- {
+		if st, ok := instrs[j].(*ssa.Store); ok && st.Addr == al {
+			return st.Val
+		}
+	}
+	return v
+}
+
+func retLast(ret *ssa.Return) ssa.Value { return retVal(ret, len(ret.Results)-1) }
